@@ -120,26 +120,31 @@ def check_offline(ctx: Ctx):
     fv = view(m, fi)
     site = fi.qualname
     rets = [n.stmt for n in fv.return_nodes()]
-    ok = len(rets) == 1 and isinstance(rets[0].value, ast.Call) and U(rets[0].value.func) == "cls"
-    if ok:
-        c = rets[0].value
-        t = kwarg(c, "times")
-        e = arg_or_kw(c, 0, "emulsions")
-        ok = t is not None and U(fv.expand(t, rets[0])) == f"{fi.params[1]}.times" and e is not None and isinstance(e, ast.Name)
+    ok = bool(rets)
+    for r_ in rets:  # one return per branch is fine, each must pair the frames with the storage's times
+        okr_ = isinstance(r_.value, ast.Call) and U(r_.value.func) == "cls"
+        if okr_:
+            c = r_.value
+            t = kwarg(c, "times")
+            e = arg_or_kw(c, 0, "emulsions")
+            okr_ = t is not None and U(fv.expand(t, r_)) == f"{fi.params[1]}.times" and e is not None and isinstance(e, ast.Name)
+        ok = ok and okr_
     ctx.decide(ok, "PIPE", site + ":times", (fi, rets[0]) if rets else fi, "offline frames are paired with storage.times",
                "the offline analysis does not build cls(emulsions, times=storage.times)")
     # serial branch applies locate_droplets to every frame of the storage
     calls = [c for c in fv.calls(nested=True) if (fv.callee(c) or "").endswith("locate_droplets")]
     ok2 = False
     for c in calls:
-        if c.args and isinstance(c.args[0], ast.Name) and has_star(c, "kwargs") and kwarg(c, "refine") is not None and U(kwarg(c, "refine")) == "refine":
+        kws_, stars_ = kw_forward(fv, c)
+        if c.args and isinstance(c.args[0], ast.Name) and "kwargs" in stars_ and kws_.get("refine") == "refine":
             ok2 = True
     ctx.decide(ok2, "PIPE", site + ":locate", (fi, calls[0]) if calls else fi, "each stored frame goes through locate_droplets(frame, refine=refine, **kwargs)",
                "stored frames are not analysed by locate_droplets(frame, refine=refine, **kwargs)")
     # every way locate_droplets is applied (direct call or functools.partial) forwards the same settings
     parts = [c for c in fv.calls(nested=True) if (fv.callee(c) or "").endswith("partial") and c.args and (fv.callee(ast.Call(func=c.args[0], args=[], keywords=[])) or U(c.args[0])).endswith("locate_droplets")]
     for k_, c in enumerate(parts):
-        okp = has_star(c, "kwargs") and kwarg(c, "refine") is not None and U(kwarg(c, "refine")) == "refine"
+        kws_, stars_ = kw_forward(fv, c)
+        okp = "kwargs" in stars_ and kws_.get("refine") == "refine"
         ctx.decide(okp, "PIPE", f"{site}:partial#{k_}", (fi, c), "the worker function forwards refine=refine and **kwargs like the serial call",
                    f"`{U(c)[:80]}` does not forward refine=refine and **kwargs: with several processes the stored frames are analysed with other settings than the tracker used")
     # constructor appends each emulsion through append
@@ -149,6 +154,52 @@ def check_offline(ctx: Ctx):
     lp = stmt_index(iv).enclosing(ap[0], (ast.For,)) if ap else None
     ok3 = len(ap) == 1 and lp is not None and U(lp[0].iter) == "emulsions" and U(iv.expand(ap[0].args[0], ap[0])) in (f"Emulsion({U(lp[0].target)})", U(lp[0].target))
     ctx.decide(ok3, "PIPE", init.qualname, (init, ap[0]) if ap else init, "the constructor stores every frame through append, in order", "the constructor does not append every given emulsion in order")
+
+
+def kw_forward(fv, call):
+    """({keyword: value text}, {names passed with **}) of a call; a `**name` whose value is a local dict literal
+    (`{"refine": refine, **kwargs}`) is looked through"""
+    kws, stars = {}, set()
+
+    def from_dict(v, at):
+        if isinstance(v, ast.Dict):
+            for k_, x_ in zip(v.keys, v.values):
+                if k_ is None:
+                    inner = fv.expand(x_, at, allow_mutated=True) if fv.node_of(at) is not None else x_
+                    if isinstance(inner, ast.Dict):
+                        from_dict(inner, at)
+                    else:
+                        stars.add(U(x_))
+                elif isinstance(k_, ast.Constant):
+                    kws[k_.value] = U(x_)
+            return True
+        if isinstance(v, ast.Call) and dotted(v.func) == "dict":
+            for k_ in v.keywords:
+                if k_.arg is None:
+                    stars.add(U(k_.value))
+                else:
+                    kws[k_.arg] = U(k_.value)
+            for a_ in v.args:
+                stars.add(U(a_))
+            return True
+        return False
+
+    for k in call.keywords:
+        if k.arg is not None:
+            kws[k.arg] = U(k.value)
+        else:
+            v = fv.expand(k.value, call, allow_mutated=True) if fv.node_of(call) is not None else k.value
+            if not from_dict(v, call):
+                # a comprehension / nested scope: try the plain single assignment of the name in the function
+                done = False
+                if isinstance(k.value, ast.Name):
+                    cands = [s_ for s_ in fv.statements() if isinstance(s_, (ast.Assign, ast.AnnAssign)) and s_.value is not None
+                             and U(s_.targets[0] if isinstance(s_, ast.Assign) else s_.target) == k.value.id]
+                    if len(cands) == 1 and k.value.id not in fv.mutated:
+                        done = from_dict(cands[0].value, cands[0])
+                if not done:
+                    stars.add(U(k.value))
+    return kws, stars
 
 
 def has_star(call, name):
